@@ -90,6 +90,58 @@ class SchedLock:
         return False
 
 
+class Blocked(Exception):
+    """A controlled thread waits for something only the (finished) other thread could provide."""
+
+
+class SchedEvent:
+    """threading.Event whose wait() yields to the other controlled thread instead of blocking the OS thread."""
+
+    def __init__(self, explorer):
+        self.ex = explorer
+        self.flag = False
+
+    def set(self):
+        self.flag = True
+
+    def clear(self):
+        self.flag = False
+
+    def is_set(self):
+        return self.flag
+
+    def wait(self, timeout=None):
+        me = threading.current_thread().name
+        run = self.ex.current
+        if run is None or me not in ("A", "B"):
+            return self.flag
+        if timeout is not None:
+            if not self.flag and self.ex.current.other(me) not in run.done:
+                run.blocked(me)          # let the other thread run once, then report the flag (a timed wait returns)
+            return self.flag
+        while not self.flag:
+            if run.other(me) in run.done:
+                raise Blocked("waits forever: the event is never set again")
+            run.blocked(me)
+        return True
+
+
+class SchedThreading:
+    """Stand-in for the threading module: Event (and Lock) cooperate with the explorer, the rest is real."""
+
+    def __init__(self, explorer):
+        self.ex = explorer
+
+    def Event(self):
+        return SchedEvent(self.ex)
+
+    def Lock(self):
+        return SchedLock(self.ex)
+
+    def __getattr__(self, name):
+        return getattr(threading, name)
+
+
 class Explorer:
     def __init__(self, codes, granularity="line"):
         self.codes = list(codes)
